@@ -57,52 +57,41 @@ Val: /\d+/;
 GRAMMAR_IMMUT = "Top: Val | Model;\n" + GRAMMAR
 KIND = {"conv": 0, "pre": 1, "resolve": 2, "init": 3, "oproc": 4, "mproc": 5}
 KIND_NAME = {v: k for k, v in KIND.items()}
-RAISING = ("exc", "type", "unknown")
-# Truthiness of user class objects (class trait `falsy`): a user class may define __bool__ / __len__, its objects may be
-# falsy while the model is built and afterwards.  "bool": __bool__ -> False; "len": __len__ -> 0 (no __bool__);
-# "dyn": __bool__ decided from the object's last grammar attribute, read through the (instrumented) attribute access
-# (an empty Box / Model, an Item without value, a Ref without `more` is falsy; unreadable -> falsy)
-FALSY = ["bool", "len", "dyn"]
-# Equality of user class objects (class trait `eq`): "name": value equality by `name` and no __hash__ (the objects
-# are unhashable, like those of an eq-dataclass)
-EQS = ["name"]
-# What the match-rule processor of the root alternative `Val` returns (an immutable-model file, `convty`): the model
-# of such a load is that value.  The primitive python types, `None` (textX keeps the matched str), immutable
-# non-primitive values, falsy ones of either kind, and builtin containers (mutable and unhashable, but textX cannot
-# store its `_tx_*` attributes on them either: same path).
-CONV_TYPES = ["int", "str", "float", "bool", "none", "tuple", "frozenset", "decimal", "date", "bytes", "complex",
-              "fraction", "range", "namedtuple", "empty_tuple", "false", "zero_float", "empty_frozenset", "zero_decimal",
-              "list", "dict"]
-PRIMITIVE_CONV = ("int", "str", "float", "bool", "none", "false", "zero_float")
-
-
-def conv_value(ty, n):
-    """the python value a top-level `Val` processor returns for the matched number n"""
-    import collections
-    import datetime
-    import decimal
-    import fractions
-
-    if ty == "namedtuple":
-        return collections.namedtuple("Pair", "x y")(n, n + 1)
-    return {
-        "int": lambda: n, "str": lambda: f"v{n}", "float": lambda: n + 0.5, "bool": lambda: True, "none": lambda: None,
-        "tuple": lambda: (n, n + 1), "frozenset": lambda: frozenset([n]), "decimal": lambda: decimal.Decimal(n),
-        "date": lambda: datetime.date(2000, 1, 1) + datetime.timedelta(days=n), "bytes": lambda: str(n).encode(),
-        "complex": lambda: complex(n, 1), "fraction": lambda: fractions.Fraction(n, 7), "range": lambda: range(n),
-        "empty_tuple": lambda: (), "false": lambda: False, "zero_float": lambda: 0.0,
-        "empty_frozenset": lambda: frozenset(), "zero_decimal": lambda: decimal.Decimal(0),
-        "list": lambda: [n], "dict": lambda: {"v": n},
-    }[ty]()
-
-
-def is_tx_obj(model):
-    """a textX object (of a user or a generated class), not a match-rule value"""
-    return hasattr(type(model), "_tx_attrs")
+# what a failing hook raises ("exception class" dimension of a fault, crossed with every failure point):
+#   exc     HookError, an ordinary Exception           txsem   textX's own TextXSemanticError, raised by user code
+#   kbd / exit / genexit / base   failures that are NOT Exception subclasses: KeyboardInterrupt (Ctrl-C while user
+#           code runs), SystemExit (a processor calling sys.exit()), GeneratorExit, a user-defined BaseException.
+#           The clean-up handlers of the load path only clean up and re-raise, so the class of the failure is
+#           irrelevant for the model (`raises` is a Bool there); the embedding application catches and drops it.
+BASE_KINDS = ("kbd", "exit", "genexit", "base")
+EXC_KINDS = ("exc", "txsem", *BASE_KINDS)
+RAISING = ("exc", "type", "unknown", "txsem", *BASE_KINDS)
+# deterministic cycle used by C15 for the fault of the main tree: every second round an ordinary exception
+EXC_CYCLE = ("exc", "kbd", "exc", "exit", "txsem", "base", "exc", "genexit")
 
 
 class HookError(Exception):
     """raised by a scripted hook"""
+
+
+class HookInterrupt(KeyboardInterrupt):
+    """scripted Ctrl-C while user code runs (a subclass: a real interrupt of the harness is never swallowed)"""
+
+
+class HookExit(SystemExit):
+    """scripted sys.exit() of user code"""
+
+
+class HookGenExit(GeneratorExit):
+    """scripted GeneratorExit"""
+
+
+class HookBase(BaseException):
+    """a user-defined failure that is not an Exception"""
+
+
+SCRIPTED_BASE = (HookInterrupt, HookExit, HookGenExit, HookBase)
+BASE_CLASS = {"kbd": HookInterrupt, "exit": HookExit, "genexit": HookGenExit, "base": HookBase}
 
 
 # --------------------------------------------------------------------------
@@ -615,7 +604,8 @@ class Runner:
         for idx, swallow in h["acts"]:
             try:
                 self.run_load(self.case["loads"][idx])
-            except Exception:
+            except (Exception, *SCRIPTED_BASE):
+                # user code that catches everything the nested load raised (also a scripted non-Exception) and drops it
                 if not swallow:
                     raise
         self.annotate(kind, h, ctx, ev, late=True)
@@ -623,6 +613,14 @@ class Runner:
             raise TypeError(f"scripted TypeError at {h['lab']}")
         if h["raises"] == "exc":
             raise HookError(f"scripted failure at {h['lab']}")
+        if h["raises"] == "txsem":
+            from textx.exceptions import TextXSemanticError
+
+            raise TextXSemanticError(f"scripted failure at {h['lab']}")
+        if h["raises"] in BASE_CLASS:
+            if h["raises"] == "exit":
+                raise HookExit(3)
+            raise BASE_CLASS[h["raises"]](f"scripted failure at {h['lab']}")
 
     # -- annotations: user code stores / deletes attributes on objects under construction ----
     def reachable(self, anchor):
@@ -805,7 +803,8 @@ class Runner:
             return True, None, m
         except RecursionError:
             return False, "RecursionError", None
-        except Exception as e:
+        except (Exception, *SCRIPTED_BASE) as e:
+            # the embedding application catches the failure (also one that is not an Exception) and drops it
             return False, type(e).__name__, None
 
     def named_inits(self, inits):
@@ -1239,26 +1238,33 @@ def add_anns(case, rng):
                 h2["ann"].append({"to": to, "name": name, "op": "del", "via": via2, "late": rng.chance(0.5), "val": 0})
 
 
-def gen_case(rng, fault_index=None, multi=None):
+def gen_case(rng, fault_index=None, multi=None, exc_index=None):
     """One case: load trees, faults, nested loads (`gen_case0`), then the annotations (separate random
     stream: the trees of a seed do not depend on them)."""
     case = gen_case0(rng, fault_index, multi)
     add_anns(case, rng.fork("ann"))
-    add_traits(case, rng.fork("traits"))
+    set_exc_kinds(case, rng.fork("exc-kind"), exc_index)
     return case
 
 
-def add_traits(case, rng):
-    """Special methods of the user classes textX's own code may trip over (truthiness, equality / hashability) and the
-    python type of an immutable model; separate random stream, assigned after everything else."""
-    for c in case["classes"]:
-        if rng.chance(0.3):
-            c["falsy"] = rng.choice(FALSY)
-        if rng.chance(0.15):
-            c["eq"] = rng.choice(EQS)
-    for n0 in case["loads"]:
-        if n0.get("immut"):
-            n0["convty"] = rng.choice(CONV_TYPES)
+def set_exc_kinds(case, rng, exc_index=None):
+    """The class of the exception a failing hook raises (separate random stream, after everything else: trees, faults
+    and annotations of a seed do not depend on it).  Every hook scripted to raise an ordinary exception -- the fault of
+    the main tree at any failure point and the faults of nested loads -- may raise textX's own semantic error or a
+    failure that is not an `Exception` (EXC_KINDS) instead.  `exc_index` fixes the class for the main tree (C15 cycles
+    EXC_CYCLE per round of the fault table: every failure point x every class); nested loads draw their own."""
+    for li, root in enumerate(case["loads"]):
+        for n in walk_nodes(root):
+            for _, h in all_hooks(n):
+                if h["raises"] != "exc":
+                    continue
+                designated = li == 0 or (li == 1 and case.get("fault", [None])[0] == "act")
+                if designated and exc_index is not None:
+                    h["raises"] = EXC_CYCLE[exc_index % len(EXC_CYCLE)]
+                elif rng.chance(0.45):
+                    h["raises"] = rng.choice(EXC_KINDS[1:])
+                if designated:
+                    case["exc_kind"] = h["raises"]
 
 
 def gen_case0(rng, fault_index=None, multi=None):
